@@ -219,6 +219,12 @@ pub struct DeclDump {
   start: i64,
   end: i64,
   kind: u64,
+  /// Target / QualifiedTarget: the local symbol the swc id maps to
+  target: Option<u64>,
+  /// FileRef: ModuleGraph::resolve_dependency(specifier, module, prefer_types = true)
+  file: Option<String>,
+  /// FileRef(Name): the imported name
+  import: Option<String>,
 }
 
 #[derive(Debug, Default, Clone)]
@@ -275,7 +281,7 @@ fn sid(id: SymbolId) -> u64 {
   format!("{:?}", id).parse::<u64>().unwrap()
 }
 
-fn dump_symbol(module: ModuleInfoRef<'_>, s: &Symbol) -> SymDump {
+fn dump_symbol(graph: &ModuleGraph, module: ModuleInfoRef<'_>, s: &Symbol) -> SymDump {
   let start = module.text_info().range().start.as_byte_pos().0 as i64;
   SymDump {
     id: sid(s.symbol_id()),
@@ -285,6 +291,20 @@ fn dump_symbol(module: ModuleInfoRef<'_>, s: &Symbol) -> SymDump {
       .decls()
       .iter()
       .map(|d| DeclDump {
+        target: match &d.kind {
+          SymbolDeclKind::Target(id) | SymbolDeclKind::QualifiedTarget(id, _) => {
+            module.esm().and_then(|e| e.symbol_id_from_swc(id)).and_then(|i| module.symbol(i)).map(|x| sid(x.symbol_id()))
+          }
+          _ => None,
+        },
+        file: match &d.kind {
+          SymbolDeclKind::FileRef(fd) => graph.resolve_dependency(&fd.specifier, module.specifier(), true).map(|u| u.to_string()),
+          _ => None,
+        },
+        import: match &d.kind {
+          SymbolDeclKind::FileRef(fd) => fd.name.maybe_name().map(|n| n.to_string()),
+          _ => None,
+        },
         name: d.maybe_name().map(|n| n.to_string()),
         start: d.range.start.as_byte_pos().0 as i64 - start,
         end: d.range.end.as_byte_pos().0 as i64 - start,
@@ -415,7 +435,7 @@ fn analyse(prog: &Prog, tx: &mpsc::Sender<Msg>, skip_goto: bool, child: bool) ->
     }
     md.root = sid(m.module_symbol().symbol_id());
     for s in m.symbols() {
-      md.syms.push(dump_symbol(m, s));
+      md.syms.push(dump_symbol(&graph, m, s));
       if m.symbol(s.symbol_id()).map(|x| !std::ptr::eq(x, s)).unwrap_or(true) {
         dump.internal.push(format!("{}: symbol({:?}) does not return the symbol listed by symbols()", md.key, s.symbol_id()));
       }
@@ -888,6 +908,7 @@ fn abstract_dump(d: &Dump) -> (Sx, Sx) {
   }
   let mut mods = vec![];
   let mut obs = vec![];
+  let has_qualified = d.mods.iter().any(|m| m.syms.iter().any(|s| s.decls.iter().any(|dd| dd.kind == 2)));
   for m in &d.mods {
     let stars = Sx::L(
       m.stars
@@ -907,12 +928,18 @@ fn abstract_dump(d: &Dump) -> (Sx, Sx) {
               s.decls
                 .iter()
                 .map(|dd| {
-                  Sx::L(vec![
+                  let mut v = vec![
                     Sx::opt(dd.name.as_ref().map(|n| Sx::A(it.id(n)))),
                     Sx::A(enc_pos(dd.start)),
                     Sx::A(enc_pos(dd.end)),
                     Sx::A(dd.kind),
-                  ])
+                  ];
+                  if dd.target.is_some() || dd.file.is_some() || dd.import.is_some() {
+                    v.push(Sx::opt(dd.target.map(Sx::A)));
+                    v.push(Sx::opt(dd.file.as_ref().map(|f| Sx::A(it.id(f)))));
+                    v.push(Sx::A(dd.import.as_ref().map(|n| it.id(n)).unwrap_or(0)));
+                  }
+                  Sx::L(v)
                 })
                 .collect(),
             ),
@@ -925,7 +952,7 @@ fn abstract_dump(d: &Dump) -> (Sx, Sx) {
     );
     let tab = Sx::L(vec![Sx::A(m.root), Sx::A(m.text_len), syms]);
     let impl_names = Sx::atoms(m.resolved.iter().map(|r| it.id(&r.0)).collect::<Vec<_>>());
-    let gotos = Sx::L(
+    let gotos_val = Sx::L(
       m.gotos
         .iter()
         .map(|(s, rs)| {
@@ -949,6 +976,7 @@ fn abstract_dump(d: &Dump) -> (Sx, Sx) {
         })
         .collect(),
     );
+    let gotos = gotos_val.clone();
     let hints = Sx::L(vec![
       Sx::atoms(m.hint_dotted.iter().map(|n| it.id(n)).collect::<Vec<_>>()),
       Sx::atoms(m.hint_conflict.iter().map(|n| it.id(n)).collect::<Vec<_>>()),
@@ -968,7 +996,9 @@ fn abstract_dump(d: &Dump) -> (Sx, Sx) {
         .collect(),
     );
     let unresolved = Sx::L(m.unresolved.iter().map(|(r, t)| Sx::L(vec![Sx::A(it.id(r)), Sx::A(it.id(t))])).collect());
-    obs.push(Sx::L(vec![resolved, unresolved, Sx::judge(true), Sx::judge(true), Sx::judge(true)]));
+    // the model's go-to-definition is compared for programs without QualifiedTarget declarations
+    let goto_obs = if has_qualified || d.goto_skipped { Sx::L(vec![]) } else { gotos_val };
+    obs.push(Sx::L(vec![resolved, unresolved, Sx::judge(true), Sx::judge(true), Sx::judge(true), goto_obs]));
   }
   let s2m = Sx::L(d.s2m.iter().map(|(a, b)| Sx::L(vec![Sx::A(it.id(a)), Sx::A(it.id(b))])).collect());
   // program level: did every go-to-definition query come back (judged), input class of F-C16c
@@ -1233,7 +1263,7 @@ pub fn gen_case(seed: u64, k: u64, corpus: &[std::path::PathBuf], fixed: &[Prog]
 pub fn run(cfg: &RunCfg) {
   let corpus = corpus_files();
   let fixed = fixed_programs();
-  let n_gen: u64 = if cfg.tier == Tier::Quick { 1500 } else { 40000 };
+  let n_gen: u64 = if cfg.tier == Tier::Quick { 1300 } else { 40000 };
   let n = corpus.len() as u64 + fixed.len() as u64 + n_gen;
   let scratch = cfg.out_dir.clone();
   std::fs::create_dir_all(&scratch).unwrap();
